@@ -23,11 +23,27 @@ lengths and schedules):
 regenerated from `/repo/src` on every run.  `C17_full` says that every system of threads whose
 acquisitions are instances of the table's edges is deadlock-free.
 
-On the unchanged code this is **false** (`C17_counterexample_E_P`, `…_G_P`, `…_D_D`): the table has
-the cycles `E → P → E`, `G → P → G` and the self-loop `D → D` (`C17_cycle`, `C17_minimal_cycles`),
-and for each a concrete schedule of table-conforming programs reaches a deadlock.  What does hold is
-`C17_partial`: without the offending edges the table admits a rank and every conforming system is
-deadlock-free and makes progress.
+State of the code (after the repairs `1c1d11d` session start / `FsmExecutor::shutdown`, `baeeed4`
+`Fsm::invoke`, `54484ea` `<send>` target — the lock-order cycles `E → P → E`, `E → P → G → E` and
+`G → P → G` reported by earlier versions of this file are gone):
+
+* `C17_repaired_edges_absent`, `C17_no_cycle_E_P`, `C17_no_cycle_G_P`, `C17_no_cycle_E_P_G`: the
+  generated table has no edge `E → P`, `G → P`, `G → Gn` any more and none of the old cycles; the
+  unrepaired start / invoke programs no longer conform to it (`C17_old_start_rejected`,
+  `C17_old_invoke_rejected`) although they do deadlock in the model
+  (`C17_old_start_deadlocks`, `C17_old_invoke_deadlocks`: what the repair removed).
+* `C17_minimal_cycles`, `C17_all_cycles`: the **only** cycle left is the self-loop `D → D` (a data
+  cell locked while a data cell that may be the same one is held: expression evaluation `a[a]`,
+  `a = a`, cf. C11).  `C17_full` is therefore still **false**: `C17_counterexample_D_D`.
+* `C17_modulo_relock` — proved for the **whole** table of the code as it is now: every conforming
+  system in which no thread requests a lock it is holding is deadlock-free under every schedule and,
+  if balanced, can always step and finish.  `C17_deadlock_needs_relock`: a reachable deadlock of a
+  conforming system implies that some program re-locks a held lock.
+* `C17_partial` — the same conclusion for every system conforming to the table minus the single
+  offending edge `D → D any` (no side condition on the programs).
+* `C17_repaired_scenarios_deadlock_free`: the abstract programs of the former confirmation
+  scenarios (start ∥ cross-session send, invoke ∥ own delayed send) in their repaired shape cannot
+  deadlock under any schedule.
 -/
 namespace Rfsm.Locks
 
@@ -208,38 +224,49 @@ theorem C17_ranked_table_progress (table : List Edge) (cr : Cls → Nat)
     completes_of_inv (ltLk_irrefl cr) (ltLk_trans cr) (todo s) s rfl hinv hb⟩
 #assert_axioms C17_ranked_table_progress
 
-/-! ### the unchanged code: cycles in the generated table -/
+/-! ### the code as it is now: the only cycle left is `D → D` -/
 
-/-- `start_fsm_with_data_and_finish_mode` / `FsmExecutor::shutdown` lock a processor while holding the
-executor state; `FsmExecutor::get_session_sender` locks the executor state while a processor is
-held (`Datamodel::send` → `ScxmlEventIOProcessor::send` → `send_to_session`). -/
-theorem C17_cycle_E_P : classCycle edges [.E, .P] = true := by decide
-#assert_axioms C17_cycle_E_P
+/-- the edges behind the repaired cycles: a processor locked under the executor state (`E → P`, was
+`start_fsm_with_data_and_finish_mode#5`, `FsmExecutor::shutdown#1`), the child start under the
+parent's global data (`G → Gn`, `G → P`, was `Fsm::invoke#3/#5`) -/
+def repairedOffending (e : Edge) : Bool :=
+  (e.held == .E && e.acq == .P) || (e.held == .G && (e.acq == .Gn || e.acq == .P))
 
-/-- `Fsm::invoke` holds the parent's global data across the child start, which locks every
-processor; a (delayed) send of the parent locks the processor, then the parent's global data. -/
-theorem C17_cycle_G_P : classCycle edges [.G, .P] = true := by decide
-#assert_axioms C17_cycle_G_P
+/-- none of them is in the table generated from the current source (regression: re-introducing one
+of these held-while-acquiring pairs makes this theorem — and the check — fail) -/
+theorem C17_repaired_edges_absent : edges.all (fun e => !repairedOffending e) = true := by decide
+#assert_axioms C17_repaired_edges_absent
+
+/-- the executor-state / processor inversion is gone -/
+theorem C17_no_cycle_E_P : classCycle edges [.E, .P] = false := by decide
+#assert_axioms C17_no_cycle_E_P
+
+/-- the global-data / processor inversion is gone -/
+theorem C17_no_cycle_G_P : classCycle edges [.G, .P] = false := by decide
+#assert_axioms C17_no_cycle_G_P
+
+/-- … and so is the three-lock cycle of DESIGN §5 P16 -/
+theorem C17_no_cycle_E_P_G : classCycle edges [.E, .P, .G] = false := by decide
+#assert_axioms C17_no_cycle_E_P_G
 
 /-- a data cell is locked while a data cell that may be the same one is held -/
 theorem C17_cycle_D_D : classCycle edges [.D] = true := by decide
 #assert_axioms C17_cycle_D_D
 
-/-- the three-lock cycle of DESIGN §5 P16 is there as well (it contains `E → P → E`) -/
-theorem C17_cycle_E_P_G : classCycle edges [.E, .P, .G] = true := by decide
-#assert_axioms C17_cycle_E_P_G
-
-/-- **`C17_cycle`**: the table of the unchanged code admits no rank at all -/
+/-- **`C17_cycle`**: because of that self-loop the table admits no rank as it stands -/
 theorem C17_cycle : ∀ cr : Cls → Nat, admits cr edges = false :=
-  classCycle_not_admits C17_cycle_E_P
+  classCycle_not_admits C17_cycle_D_D
 #assert_axioms C17_cycle
 
-/-- exactly three independent cycles (cycles whose class set contains no smaller cycle) -/
-theorem C17_minimal_cycles :
-    (minimalCycles edges).map showCycle = ["G>P>G", "E>P>E", "D>D"] := by decide
+/-- the self-loop is the only cycle of the table (simple cycles, each found once) -/
+theorem C17_all_cycles : allCycles edges = [[.D]] := by decide
+#assert_axioms C17_all_cycles
+
+/-- … also as reported by the driver (`locks table`, `locks cycles`) -/
+theorem C17_minimal_cycles : (minimalCycles edges).map showCycle = ["D>D"] := by decide
 #assert_axioms C17_minimal_cycles
 
-/-! ### concrete deadlocking schedules of table-conforming programs -/
+/-! ### abstract programs of the platform's lock users -/
 
 def lkE : Lk := ⟨.E, 0⟩
 def lkP : Lk := ⟨.P, 0⟩
@@ -247,11 +274,14 @@ def lkG (sid : Nat) : Lk := ⟨.G, sid⟩
 def lkGn (sid : Nat) : Lk := ⟨.Gn, sid⟩
 def lkD (cell : Nat) : Lk := ⟨.D, cell⟩
 
-/-- what `start_fsm_with_data_and_finish_mode` does for a new session `sid` (fsm.rs:100–136) -/
+/-- what `start_fsm_with_data_and_finish_mode` does for a new session `sid` (fsm.rs:100–141): the
+processor list is copied out of the executor state, `E` is released, then the processors are locked
+under the new session's global data only -/
 def progStart (sid : Nat) : List (Op Lk) :=
   [.acquire (lkGn sid), .release (lkGn sid),          -- source
    .acquire lkE, .release lkE,                        -- sessions.insert, options
-   .acquire (lkGn sid), .acquire lkE, .acquire lkP, .release lkP, .release lkE, .release (lkGn sid)]
+   .acquire lkE, .release lkE,                        -- processors.clone()
+   .acquire (lkGn sid), .acquire lkP, .release lkP, .release (lkGn sid)]
 
 /-- what a cross-session `<send>` (or `cancelInvoke`, `returnDoneEvent`) of session `sid` does:
 `Datamodel::send` → `ScxmlEventIOProcessor::send` → `FsmExecutor::get_session_sender` -/
@@ -259,92 +289,104 @@ def progSend (sid : Nat) : List (Op Lk) :=
   [.acquire (lkG sid), .release (lkG sid),            -- get_io_processor
    .acquire lkP, .acquire (lkG sid), .acquire lkE, .release lkE, .release (lkG sid), .release lkP]
 
-/-- the delayed-send closure on the timer thread of session `sid` (executable_content.rs:656–663) -/
+/-- the delayed-send closure on the timer thread of session `sid` (executable_content.rs:671–678) -/
 def progTimer (sid : Nat) : List (Op Lk) :=
   [.acquire (lkG sid), .release (lkG sid),            -- delayed_send.remove
    .acquire lkP, .acquire (lkG sid), .acquire lkE, .release lkE, .release (lkG sid), .release lkP]
 
-/-- `Fsm::invoke` of session `sid` starting child `child` (fsm.rs:3123–3160) -/
+/-- `Fsm::invoke` of session `sid` starting child `child` (fsm.rs:3143–3203): session id, actions and
+executor are copied out of `G(sid)`, which is released before the child is started and taken again
+to record the child -/
 def progInvoke (sid child : Nat) : List (Op Lk) :=
+  [.acquire (lkG sid), .release (lkG sid)] ++ progStart child ++
+  [.acquire (lkG sid), .release (lkG sid)]
+
+/-- the start before repair `1c1d11d`: the processors were locked while `E` (and `Gn`) was held -/
+def progStartOld (sid : Nat) : List (Op Lk) :=
+  [.acquire (lkGn sid), .release (lkGn sid),
+   .acquire lkE, .release lkE,
+   .acquire (lkGn sid), .acquire lkE, .acquire lkP, .release lkP, .release lkE, .release (lkGn sid)]
+
+/-- the invoke before repair `baeeed4`: `G(sid)` was held across the child start -/
+def progInvokeOld (sid child : Nat) : List (Op Lk) :=
   [.acquire (lkG sid)] ++ progStart child ++ [.release (lkG sid)]
-
-/-- host starts session 2 while session 1 sends to another session -/
-def cexEP : List (List (Op Lk)) := [progStart 2, progSend 1]
-
-/-- session 1 invokes child 2 while a delayed send of session 1 fires -/
-def cexGP : List (List (Op Lk)) := [progInvoke 1 2, progTimer 1]
-
-/-- `<send eventexpr="v" targetexpr="v"/>`: the target cell is held, the same cell is locked again -/
-def cexDD : List (List (Op Lk)) := [[.acquire (lkD 5), .acquire (lkD 5), .release (lkD 5), .release (lkD 5)]]
 
 def noPriv : Lk → Option Nat := fun _ => none
 def cellsOf0 : Lk → Option Nat := fun l => if l.cls = .D then some 0 else none
 
-theorem C17_cexEP_conforms : systemConforms edges noPriv cexEP = true := by decide
-#assert_axioms C17_cexEP_conforms
-theorem C17_cexGP_conforms : systemConforms edges noPriv cexGP = true := by decide
-#assert_axioms C17_cexGP_conforms
-theorem C17_cexDD_conforms : systemConforms edges cellsOf0 cexDD = true := by decide
-#assert_axioms C17_cexDD_conforms
+/-! ### the repaired cycles: what the old shapes did, and that the table rejects them now -/
+
+/-- host starts session 2 (old shape) while session 1 sends to another session -/
+def cexEPold : List (List (Op Lk)) := [progStartOld 2, progSend 1]
+
+/-- session 1 invokes child 2 (old shape) while a delayed send of session 1 fires -/
+def cexGPold : List (List (Op Lk)) := [progInvokeOld 1 2, progTimer 1]
 
 /-- schedule: the starter takes `E` (steps 1–6 of thread 0), the sender takes `P` and `G(1)`
 (steps 1–4 of thread 1); now 0 waits for `P`, 1 waits for `E` -/
 def schedEP : List Nat := [0, 0, 0, 0, 0, 0, 1, 1, 1, 1]
 
-theorem C17_deadlock_schedule_E_P :
-    ∃ s, exec (start cexEP) schedEP = some s ∧ deadlockedSet s [0, 1] = true := by
-  refine ⟨(exec (start cexEP) schedEP).getD [], by decide, by decide⟩
-#assert_axioms C17_deadlock_schedule_E_P
+/-- schedule: the timer takes `G(1)` and releases it, the parent takes `G(1)`, the timer takes `P`
+and waits for `G(1)`; the parent goes on to the child start and waits for `P` -/
+def schedGP : List Nat := [1, 1, 0, 1, 0, 0, 0, 0, 0, 0, 0]
 
-/-- schedule: the parent takes `G(1)`; the timer takes `P`; the parent goes on to `E` and waits for
-`P`; the timer waits for `G(1)` -/
-def schedGP : List Nat := [1, 1, 0, 1, 0, 0, 0, 0, 0, 0]
+/-- the old start did deadlock against a sender (model run; this is what `1c1d11d` removed) -/
+theorem C17_old_start_deadlocks :
+    ∃ s, exec (start cexEPold) schedEP = some s ∧ deadlockedSet s [0, 1] = true := by
+  refine ⟨(exec (start cexEPold) schedEP).getD [], by decide, by decide⟩
+#assert_axioms C17_old_start_deadlocks
 
-theorem C17_deadlock_schedule_G_P :
-    ∃ s, exec (start cexGP) schedGP = some s ∧ deadlockedSet s [0, 1] = true := by
-  refine ⟨(exec (start cexGP) schedGP).getD [], by decide, by decide⟩
-#assert_axioms C17_deadlock_schedule_G_P
+/-- the old invoke did deadlock against the session's own timer (what `baeeed4` removed) -/
+theorem C17_old_invoke_deadlocks :
+    ∃ s, exec (start cexGPold) schedGP = some s ∧ deadlockedSet s [0, 1] = true := by
+  refine ⟨(exec (start cexGPold) schedGP).getD [], by decide, by decide⟩
+#assert_axioms C17_old_invoke_deadlocks
+
+/-- the table of the current source does not allow the old start … -/
+theorem C17_old_start_rejected : systemConforms edges noPriv cexEPold = false := by decide
+#assert_axioms C17_old_start_rejected
+
+/-- … nor the old invoke -/
+theorem C17_old_invoke_rejected : systemConforms edges noPriv cexGPold = false := by decide
+#assert_axioms C17_old_invoke_rejected
+
+/-! ### the remaining counterexample: re-locking a data cell -/
+
+/-- `a[a]` in an rfsm-expression (`ExpressionIndex::execute#0/#1`; also `a = a`, `a ?= a`): the cell
+of `a` is held, the same cell is locked again -/
+def cexDD : List (List (Op Lk)) := [[.acquire (lkD 5), .acquire (lkD 5), .release (lkD 5), .release (lkD 5)]]
+
+theorem C17_cexDD_conforms : systemConforms edges cellsOf0 cexDD = true := by decide
+#assert_axioms C17_cexDD_conforms
 
 theorem C17_deadlock_schedule_D_D :
     ∃ s, exec (start cexDD) [0] = some s ∧ deadlockedSet s [0] = true := by
   refine ⟨(exec (start cexDD) [0]).getD [], by decide, by decide⟩
 #assert_axioms C17_deadlock_schedule_D_D
 
-/-- **the unchanged code violates C17** (host starts a session while another session sends) -/
-theorem C17_counterexample_E_P : ¬ C17_full := by
-  intro h
-  obtain ⟨s, hs, hd⟩ := C17_deadlock_schedule_E_P
-  exact h noPriv cexEP C17_cexEP_conforms s (exec_reach hs) (deadlockedSet_sound hd)
-#assert_axioms C17_counterexample_E_P
-
-/-- … and by an invoke racing with the invoking session's own delayed send -/
-theorem C17_counterexample_G_P : ¬ C17_full := by
-  intro h
-  obtain ⟨s, hs, hd⟩ := C17_deadlock_schedule_G_P
-  exact h noPriv cexGP C17_cexGP_conforms s (exec_reach hs) (deadlockedSet_sound hd)
-#assert_axioms C17_counterexample_G_P
-
-/-- … and by a single thread re-locking a data cell it holds -/
+/-- **the code still violates C17 at full strength**: a single thread re-locking a data cell it
+holds conforms to the table and is a deadlock (the thread never returns; everybody who later needs
+the session's global data, which the thread holds during evaluation, waits for ever) -/
 theorem C17_counterexample_D_D : ¬ C17_full := by
   intro h
   obtain ⟨s, hs, hd⟩ := C17_deadlock_schedule_D_D
   exact h cellsOf0 cexDD C17_cexDD_conforms s (exec_reach hs) (deadlockedSet_sound hd)
 #assert_axioms C17_counterexample_D_D
 
-/-! ### what does hold: the table without the offending edges -/
+/-! ### what does hold -/
 
-/-- the edges behind the three cycles: a processor locked under the executor state (`E → P`), the
-child start under the parent's global data (`G → Gn`, `G → P`), a data cell locked under a data
-cell that may be the same (`D → D`, `any`) -/
-def offending (e : Edge) : Bool :=
-  (e.held == .E && e.acq == .P) ||
-  (e.held == .G && (e.acq == .Gn || e.acq == .P)) ||
-  (e.held == .D && e.acq == .D && e.rel == .any)
+/-- the one edge behind the remaining cycle: a data cell locked under a data cell that may be the
+same (`D → D`, `any`) -/
+def offending (e : Edge) : Bool := e.held == .D && e.acq == .D && e.rel == .any
 
 def fixedEdges : List Edge := edges.filter fun e => !offending e
 
-/-- the rank of the remaining table: not-yet-shared session data first, then the processors, the
-session data, and last the executor state, data cells, actions, tracer factory -/
+/-- exactly one edge is left out -/
+theorem C17_one_offending_edge : (edges.filter offending).length = 1 := by decide
+#assert_axioms C17_one_offending_edge
+
+/-- the rank of the table: not-yet-shared session data first, then the processors, the session
+data, and last the executor state, data cells, actions, tracer factory -/
 def fixedRank : Cls → Nat
   | .DF => 0 | .Gn => 0 | .Gi => 0 | .R => 0
   | .P => 1
@@ -358,11 +400,54 @@ theorem C17_fixed_ranked : admits fixedRank fixedEdges = true := by decide
 theorem C17_fixed_hasRank : hasRank fixedEdges = true := by decide +kernel
 #assert_axioms C17_fixed_hasRank
 
-/-- **`C17_partial`**: every system that conforms to the table *without the offending edges* is
+/-- the **whole** table is ranked by `fixedRank` up to re-locking of private locks: every edge is
+rank-increasing, exempt, or has a held lock private to the acquiring thread -/
+theorem C17_ranked_modulo_relock : admitsModRelock fixedRank edges = true := by decide
+#assert_axioms C17_ranked_modulo_relock
+
+/-- **`C17_modulo_relock`** (the code as it is now, whole table): every system of threads that
+conforms to the lock-site table and in which no thread requests a lock it is holding is
 deadlock-free under every schedule; if its programs are balanced it can always step and finish.
-Missing for `C17_full`: the offending edges (`E → P` at `start_fsm_with_data_and_finish_mode#5`
-and `FsmExecutor::shutdown#1`; `G → Gn`, `G → P` through `Fsm::invoke#3/#5`; `D → D` re-locking,
-e.g. `SendParameters::execute#4–#6`, `ExpressionIndex::execute#1`) are in the code. -/
+Missing for `C17_full`: the side condition — the code does contain re-locking of a held data cell
+(`C17_counterexample_D_D`). -/
+theorem C17_modulo_relock (pv : Lk → Option Nat) (progs : List (List (Op Lk)))
+    (hconf : systemConforms edges pv progs = true) (hnr : systemNoRelock progs = true)
+    (s : Sys Lk) (hr : Reach (start progs) s) :
+    ¬ Deadlock s ∧
+    (systemBalanced progs = true →
+      (unfinished s → ∃ t s', step s t = some s') ∧
+      ∃ sched s', exec s sched = some s' ∧ allFinished s' = true) := by
+  have hinv : AllThreads (InvP (ltLk fixedRank) pv) s := by
+    apply reach_invP _ hr
+    apply start_allThreads
+    intro u p hp
+    show HeldOk pv u [] ∧ OrderedP (ltLk fixedRank) pv u [] p
+    exact ⟨(fun h hh => nomatch hh),
+      conforms_orderedP_noRelock C17_ranked_modulo_relock (systemConforms_sound hconf u p hp)
+        (systemNoRelock_sound hnr u p hp)⟩
+  refine ⟨invP_state_no_deadlock (ltLk_irrefl fixedRank) (ltLk_trans fixedRank) hinv, ?_⟩
+  intro hbal
+  have hb : AllThreads (fun _ => Balanced) s := by
+    apply reach_balanced _ hr
+    apply start_allThreads
+    exact systemBalanced_sound hbal
+  exact ⟨progress_of_inv (ltLk_irrefl fixedRank) (ltLk_trans fixedRank) hinv hb,
+    completes_of_inv (ltLk_irrefl fixedRank) (ltLk_trans fixedRank) (todo s) s rfl hinv hb⟩
+#assert_axioms C17_modulo_relock
+
+/-- a deadlock of a conforming system needs a program that re-locks a lock it holds -/
+theorem C17_deadlock_needs_relock (pv : Lk → Option Nat) (progs : List (List (Op Lk)))
+    (hconf : systemConforms edges pv progs = true) (s : Sys Lk) (hr : Reach (start progs) s)
+    (hd : Deadlock s) : systemNoRelock progs = false := by
+  cases hnr : systemNoRelock progs with
+  | false => rfl
+  | true => exact absurd hd (C17_modulo_relock pv progs hconf hnr s hr).1
+#assert_axioms C17_deadlock_needs_relock
+
+/-- **`C17_partial`**: every system that conforms to the table *without the offending edge* is
+deadlock-free under every schedule; if its programs are balanced it can always step and finish.
+Missing for `C17_full`: the edge `D → D any` (re-locking of a data cell, e.g.
+`ExpressionIndex::execute#1`, `ExpressionAssign::execute#1`) is in the code. -/
 theorem C17_partial (pv : Lk → Option Nat) (progs : List (List (Op Lk)))
     (hconf : systemConforms fixedEdges pv progs = true) (s : Sys Lk)
     (hr : Reach (start progs) s) :
@@ -374,24 +459,36 @@ theorem C17_partial (pv : Lk → Option Nat) (progs : List (List (Op Lk)))
    fun hbal => C17_ranked_table_progress fixedEdges _ C17_fixed_ranked pv progs hconf hbal s hr⟩
 #assert_axioms C17_partial
 
-/-- what the proposed repair does: `E` is released before the processors are locked -/
-def progStartFixed (sid : Nat) : List (Op Lk) :=
-  [.acquire (lkGn sid), .release (lkGn sid), .acquire lkE, .release lkE,
-   .acquire (lkGn sid), .acquire lkE, .release lkE, .acquire lkP, .release lkP, .release (lkGn sid)]
+/-- starts, invokes, cross-session sends and timers as the code does them now -/
+def repairedScenario : List (List (Op Lk)) :=
+  [progStart 3, progInvoke 1 2, progSend 1, progTimer 1, progSend 2]
 
-/-- … and the parent's global data is released before the child is started -/
-def progInvokeFixed (sid child : Nat) : List (Op Lk) :=
-  [.acquire (lkG sid), .release (lkG sid)] ++ progStartFixed child ++
-  [.acquire (lkG sid), .release (lkG sid)]
+/-- **the former deadlock scenarios cannot deadlock any more**: a host start, an invoke, the
+invoking session's delayed send and cross-session sends, all at once, under every schedule — and
+they can always be run to the end -/
+theorem C17_repaired_scenarios_deadlock_free (s : Sys Lk) (hr : Reach (start repairedScenario) s) :
+    ¬ Deadlock s ∧ ∃ sched s', exec s sched = some s' ∧ allFinished s' = true := by
+  have h := C17_partial noPriv repairedScenario (by decide) s hr
+  exact ⟨h.1, (h.2 (by decide)).2⟩
+#assert_axioms C17_repaired_scenarios_deadlock_free
 
-/-- non-vacuity of `C17_partial`: starts, invokes, sends and timers of the repaired shape conform to
-the reduced table and are balanced (so the theorem applies to them, in any number) -/
-example : systemConforms fixedEdges noPriv
-    [progStartFixed 3, progInvokeFixed 1 2, progSend 1, progTimer 1, progSend 2] = true ∧
-    systemBalanced [progStartFixed 3, progInvokeFixed 1 2, progSend 1, progTimer 1, progSend 2] = true := by
+/-- non-vacuity of `C17_modulo_relock`: the same programs conform to the whole table, never
+re-lock and are balanced; with a thread that evaluates expressions over its own cells (`G`, then
+two different cells) as well -/
+example :
+    let eval : List (Op Lk) := [.acquire (lkG 1), .acquire (lkD 1), .acquire (lkD 2),
+      .release (lkD 2), .release (lkD 1), .release (lkG 1)]
+    systemConforms edges cellsOf0 (eval :: repairedScenario) = true ∧
+    systemNoRelock (eval :: repairedScenario) = true ∧
+    systemBalanced (eval :: repairedScenario) = true := by
   decide
 
-/-- the unrepaired start does not conform to the reduced table (the filter is not idle) -/
-example : systemConforms fixedEdges noPriv [progStart 2] = false := by decide
+/-- the re-locking program is excluded by the side condition (it is not idle) -/
+example : systemNoRelock cexDD = false := by decide
+
+/-- the same schedules that deadlocked the old shapes do not deadlock the repaired ones: the
+starter finishes, the sender goes on (Test, by `decide`.) -/
+example : deadlockedSet ((run (start [progStart 2, progSend 1]) schedEP)) [0, 1] = false := by
+  decide
 
 end Rfsm.Locks
